@@ -958,6 +958,7 @@ class C10(Prop):
                             if kk is not None:
                                 kk["method"] = "SAMPLE-AES"      # (no derived IV: nothing but an explicit IV asks for version 2)
                                 kk["format"], kk["versions"] = None, None
+                        sg["dur"], sg["map"] = "9", None
                 out.append(mk("m", n, "media", hx(gen.render_media(a, g)), kind="media"))
                 if len(a["segs"]) >= 2 and n % 3 == 1:
                     # the same value after segments were removed through the public `segments` field: the text of ANY playlist value
@@ -1004,7 +1005,7 @@ class C11(Prop):
         g = gen.G(seed * 1000003 + 11)
         gen.plain_style(g)
         out = []
-        for n in range(count_tier(tier, 400, 8000)):
+        for n in range(count_tier(tier, 1500, 20000)):
             if n % 5 == 4:
                 a = gen.gen_master(g)
                 text = gen.render_master(a, g)
@@ -1013,7 +1014,7 @@ class C11(Prop):
             else:
                 a = gen_key_history(g, length=g.r.randint(3, 25))
                 text = gen.render_media(a, None)
-                out.append(mk("m", n, "repeat_media", hx(text), 4, base="media", model=False))
+                out.append(mk("m", n, "repeat_media", hx(text), 8, base="media", model=False))
                 out.append(mk("M", n, "media", hx(text), base="media"))
         return out
 
@@ -1593,11 +1594,12 @@ class C05(Prop):
                     lines.append("#EXT-X-BYTERANGE:%d@%d" % (ln, g.pick(BIG)) if g.chance(0.45) else "#EXT-X-BYTERANGE:%d" % ln)
                 if g.chance(0.2):
                     lines.append('#EXT-X-KEY:METHOD=AES-128,URI="k"')
-                lines.append("#EXTINF:%s," % g.pick(["1", "0.5", "10", "18446744073", "18446744073709551615", "1.8446744073709552e19", "1e19", "0.9999999995"]))
+                lines.append("#EXTINF:%s," % g.pick(["1", "0.5", "10", "18446744073", "18446744073709551615", "1.8446744073709552e19", "1e19", "0.9999999995",
+                                                      "1.6", "10.6", "1.5", "10.5", "1.699999999", "2.2", "11.4"]))
                 lines.append(uri)
             text = "\n".join(lines) + "\n"
             if g.chance(0.3):
-                out.append(mk("c", n, "media_excess", hx(text), g.pick([0, 1, 10 ** 9, (2 ** 64 - 1) * 10 ** 9 + 999999999]), stream="boundary"))
+                out.append(mk("c", n, "media_excess", hx(text), g.pick([0, 1, 10 ** 9, (2 ** 64 - 1) * 10 ** 9 + 999999999, 700000000, 500000001, 1999999999]), stream="boundary"))
             else:
                 out.append(mk("c", n, "media", hx(text), stream="boundary"))
             n += 1
@@ -1825,6 +1827,37 @@ class C13(Prop):
             out.append(mk("m", n, "master", hx(master_text([], [], sdata, None)), exp=True, kind="accept")); n += 1
             if N:
                 out.append(mk("m", n, "master", hx(master_text([], [], sdata + [("id%d" % (N - 1), None)], None)), exp=False, kind="accept")); n += 1
+        # the same rule decides builder success: configurations as MasterPlaylistBuilder call sequences; a setter that is never
+        # called leaves that list empty
+        def bscript(media, variants, sdata, skip_media, skip_variants, skip_sdata):
+            lines = master_text(media, variants, sdata, None).split("\n")[1:-1]
+            sc, vs = [], False
+            for l in lines:
+                if l.startswith("#EXT-X-MEDIA:"):
+                    sc.append("media " + l)
+                elif l.startswith("#EXT-X-STREAM-INF:"):
+                    sc.append("streaminf " + l)
+                elif l.startswith("#EXT-X-I-FRAME-STREAM-INF:"):
+                    sc.append("variant " + l)
+                elif l.startswith("#EXT-X-SESSION-DATA:"):
+                    sc.append("sdata " + l)
+                else:
+                    sc.append("vuri " + l)
+            sets = ([] if (skip_media and not media) else ["set media"]) + ([] if (skip_variants and not variants) else ["set variants"]) \
+                + ([] if (skip_sdata and not sdata) else ["set sdata"])
+            g.r.shuffle(sets)
+            return "\n".join(sc + sets + ["build"])
+        for k in range(count_tier(tier, 1500, 20000)):
+            media = [m for m in allm if g.chance(0.4)] if g.chance(0.7) else []
+            variants = []
+            if g.chance(0.7):
+                for _ in range(g.pick([1, 1, 2, 3])):
+                    variants.append({"kind": "s", "audio": g.pick([None, "g1", "g2"]), "video": g.pick([None, None, "g1"]),
+                                     "subs": g.pick([None, "g1"]), "cc": g.pick([None, "g1", "NONE"])})
+            sdata = [(g.pick(["a", "b"]), g.pick([None, "en", "de"])) for _ in range(g.pick([0, 0, 1, 2, 3, 4]))]
+            exp = master_consistent(media, variants, sdata)
+            out.append(mk("m", n, "bmaster", hx(bscript(media, variants, sdata, g.chance(0.6), g.chance(0.6), g.chance(0.6))), exp=exp, kind="accept", model=False))
+            n += 1
         # exhaustive: CLOSED-CAPTIONS of up to 4 variants over {absent, g1, NONE} with the group g1 defined
         for L in range(1, 5):
             for seq in itertools.product([None, "g1", "NONE"], repeat=L):
